@@ -44,9 +44,8 @@ var (
 	vfC06Zones  = []string{"test", "host.test", "example", "x.example", "co.uk"}
 	vfC06V4     = []string{"192.0.2.1", "192.0.2.2", "198.51.100.7", "0.0.0.0", "127.0.0.1"}
 	vfC06V6     = []string{"2001:db8::1", "2001:db8::2", "::", "::1", "::ffff:192.0.2.1", "fe80::1%eth0"}
-	// Question types: A and AAAA weighted, then TXT MX HTTPS CNAME PTR SRV ANY.
-	// (rapid draws small indexes more often, hence the interleaving)
-	vfC06QTypes = []uint16{28, 1, 28, 1, 16, 28, 1, 65, 28, 1, 15, 5, 12, 33, 255}
+	// Other question types: TXT MX HTTPS CNAME PTR SRV ANY.
+	vfC06OtherQTypes = []uint16{16, 15, 65, 5, 12, 33, 255}
 )
 
 // vfC06Gen builds one table over a small pool of related names.
@@ -376,7 +375,19 @@ func vfC06DrawQuery(t *rapid.T, tab []vfC06Entry, pool, heads []string, i int) (
 		host = strings.ToUpper(host[:1]) + host[1:]
 	}
 
-	return host, rapid.SampledFrom(vfC06QTypes).Draw(t, l("qtype"))
+	return host, vfC06DrawQType(t, l("qtype"))
+}
+
+// vfC06DrawQType draws A and AAAA four times out of five.
+func vfC06DrawQType(t *rapid.T, label string) (qtype uint16) {
+	switch k := rapid.IntRange(0, 9).Draw(t, label); {
+	case k >= 8:
+		return rapid.SampledFrom(vfC06OtherQTypes).Draw(t, label+"_other")
+	case k%2 == 0:
+		return vfC06TypeAAAA
+	default:
+		return vfC06TypeA
+	}
 }
 
 // vfC06Fataler is the part of *testing.T / *rapid.T the helpers need.
@@ -737,7 +748,7 @@ func TestVFC06Cycles(t *testing.T) {
 		}
 
 		for _, host := range append(append([]string{}, names...), tail...) {
-			qtype := rapid.SampledFrom(vfC06QTypes).Draw(t, "qtype_"+host)
+			qtype := vfC06DrawQType(t, "qtype_"+host)
 			vfC06CheckOne(t, tab, filters, orders, host, qtype, true)
 			for i, d := range filters {
 				if got := vfC06Lookup(t, d, orders[i], host, qtype); len(got.IPs) != 0 {
